@@ -82,6 +82,44 @@ with refs_of_props (ps : props) {struct ps} : list ref :=
 with refs_of_property (p : property) {struct p} : list ref :=
   match p with Property _ _ _ f => refs_of_field f end.
 
+(* every reference of a declaration: objects / oneofs with their nested declarations, the
+   requests and responses of a service, the messages of a topic (implicit leading fields
+   included) *)
+Fixpoint refs_of_nested (n : nested) {struct n} : list ref :=
+  match n with
+  | NObject _ ps subs | NOneof _ ps subs => refs_of_props ps ++ refs_of_nesteds subs
+  | NEnum _ => []
+  end
+with refs_of_nesteds (ns : nesteds) {struct ns} : list ref :=
+  match ns with
+  | NNil => []
+  | NCons n r => refs_of_nested n ++ refs_of_nesteds r
+  end.
+
+Definition refs_of_method (m : method) : list ref :=
+  refs_of_props (m_request m) ++ match m_response m with Some ps => refs_of_props ps | None => [] end.
+Definition refs_of_tmsgs (virt : props) (l : list tmsg) : list ref :=
+  flat_map (fun t => refs_of_props (papp virt (tm_fields t))) l.
+Definition refs_of_topic (t : topic) : list ref :=
+  match t with
+  | TPublish _ msgs => refs_of_tmsgs PNil msgs
+  | TReqRes _ req reply => refs_of_tmsgs virt_request req ++ refs_of_tmsgs virt_request reply
+  | TUpsert _ _ msg => refs_of_tmsgs virt_upsert [msg]
+  | TEvent _ _ msg => refs_of_tmsgs PNil [msg]
+  end.
+
+(* the references of the declarations that go to the main / .service / .topic file *)
+Definition main_refs (e : element) : list ref :=
+  match e with
+  | EObject nm ps subs => refs_of_nested (NObject nm ps subs)
+  | EOneof nm ps subs => refs_of_nested (NOneof nm ps subs)
+  | _ => []
+  end.
+Definition service_refs (e : element) : list ref :=
+  match e with EService s => flat_map refs_of_method (sv_methods s) | _ => [] end.
+Definition topic_refs (e : element) : list ref :=
+  match e with ETopic t => refs_of_topic t | _ => [] end.
+
 Section Contract.
 Variables snake camel screaming : str -> str.
 
@@ -107,7 +145,9 @@ Definition field_decl_ok (inoneof : bool) (num : N) (p : property) (df : dfield)
   f_num df = num /\
   f_type df = decl_ptype (prop_field p) /\
   f_label df = (if is_repeated (prop_field p) then LRepeated else LOptional) /\
-  f_opt3 df = prop_optional p /\
+  (* optionality: proto3_optional exactly for the properties declared optional; cardinality
+     "repeated" has no presence, so an optional array / map is a plain repeated field *)
+  f_opt3 df = (prop_optional p && negb (is_repeated (prop_field p))) /\
   f_oneof df = inoneof.
 
 (* the fields of a message are exactly the declared properties, in order, numbered from
